@@ -16,6 +16,11 @@ THEOREMS = [
     ("EG.props.C11", "C11_update_never_unavailable"),
     ("EG.props.C11", "C11_hot_update_no_restart"),
     ("EG.props.C11", "C11_registry_bad_entry_frame"),
+    ("EG.props.C11", "C11_checker_sound_pipe"),
+    ("EG.props.C11", "C11_checker_sound_conc"),
+    ("EG.props.C11", "C11_checker_sound_tc"),
+    ("EG.props.C11", "C11_checker_sound_tcreal"),
+    ("EG.props.C11", "C11_checker_sound_reg"),
 ]
 _HOOKS = {"pkg/util/ratelimiter/zz_verif_c11_hook.go": "harness/pipeline/zz_verif_c11_hook_rl.go",
           "pkg/filters/proxy/zz_verif_c11_hook.go": "harness/pipeline/zz_verif_c11_hook_proxy.go"}
